@@ -166,3 +166,38 @@ check('C04',
       TRUSTED + 'sqlite / HDF5 are used as builders; identifier values are tokenised injectively.',
       'TLA+ spec (RefDbDef, RefDb, World) model-checked with TLC; TLC judges load outcomes, pairings and per-genome distances of real databases',
       'DESIGN.md 5 (C04)')
+
+check('C14',
+      'TLC model check of command histories over `dist` / `query` with three parameter sets: no comparison of mismatched parameters, '
+      'every command either writes a result or fails; the if-chain of `dist` equals the definitional rule ("everything pinned down by a '
+      'signature source or by -k/-p must agree") on the whole table; negative control `query -s` without a check. Conformance '
+      '(generator): TLC emits the full decision table (305 rows: explicit none / partial / 4 parameter sets x query source x reference '
+      'source incl. database and --square, plus query files / -s) with the required outcome; every row is run through the real command '
+      'line: exit status, result written or not, and on success every cell is recomputed by TLC from the sequences under the parameters '
+      'the specification selects.',
+      TRUSTED + '`tree -s FILE -k/-p` (single source) is outside the statement.',
+      'TLA+ spec (Cli) model-checked with TLC; TLC-generated decision table replayed on the real CLI and judged by TLC',
+      'DESIGN.md 5 (C14)')
+
+check('C16',
+      'TLC checks of the CSV reader/writer round trip, of the matrix/pairwise loops and of the parameter selection; conformance: all '
+      '3 x 5 ways of supplying queries and references (files, list file + base directory, signature file, database with an unrelated '
+      'extra signature, --square; plus references sharing the queries\' file names but not their contents) x -k/-p given or defaulted x '
+      'core counts, with awkward file names and ids; TLC parses the raw CSV text (RFC 4180), derives every label from the path with the '
+      'specification\'s Label operator, recomputes every cell from the nucleotide sequences (correct 4-decimal rounding), checks '
+      'symmetry / zero diagonal of --square and its equality with the same genomes on both sides.',
+      TRUSTED + 'A cell within 1/80 unit of an exact rounding tie may be either neighbour.',
+      'TLA+ spec (World, Labels, Csv, BulkDist, Cli) model-checked with TLC; TLC parses and judges the real command\'s CSV output',
+      'DESIGN.md 5 (C16)')
+
+check('C17',
+      'TLC model check of average-linkage clustering as a nondeterministic merge relation (any minimum-average pair may merge) on all '
+      'metric integer matrices over 4 leaves with zeros and ties: heights never decrease, partition, n-1 merges, ultrametric cophenetic '
+      'heights; conformance: `gambit tree` on genome sets of 2..6 members (identical, equidistant, nested, cluster-joins-cluster, random) '
+      'through files, list file, signature files with string ids needing Newick quoting / Unicode and with integer ids; the Newick text '
+      'is parsed by an independent parser and TLC replays the observed merges on the exact distance matrix recomputed from the '
+      'sequences: every merge must be a minimum-average pair with the exact height, leaves = labels, binary, non-negative branches, '
+      'equidistant leaves, path length = 2 x merge height.',
+      TRUSTED + 'Heights are snapped to the exact grid 1/21600 (scenarios keep unions <= 6 k-mers), anything further than 1e-6 from it is rejected.',
+      'TLA+ spec (UpgmaDef, Upgma, World, Labels) model-checked with TLC; TLC replays merges parsed from the real Newick output',
+      'DESIGN.md 5 (C17)')
